@@ -2,7 +2,8 @@
    Statements only; proofs are in Proofs/C01Proofs.v.  Model: Model/Authn.v (clientutil.Authenticated,
    transcribed), Model/AuthnSpec.v (what a valid credential is, declaratively), Model/AuthnLink.v
    (how the abstract credential of Token.v / Authorize.v sits on top), Model/Token.v, Model/Authorize.v. *)
-From Verif Require Import Base Scope Types Prog Pop Token Authorize Authn AuthnSpec AuthnLink C01Proofs.
+From Verif Require Import Base Scope Types Prog Pop Token Authorize Authn AuthnSpec AuthnLink C01Proofs JwtBearerProofs.
+From Verif Require Import AuthnWire AuthnEntry C01WireProofs.
 Local Open Scope N_scope.
 
 (* SOUNDNESS.  For every configuration, every authentication context (token / introspection /
@@ -46,7 +47,8 @@ Print Assumptions valid_credential_decided.
    credential) the handler answers an error, the store after the run is the store before it, the
    only storage calls made are reads of the client store, and -- when the guards the handler
    evaluates before authenticating pass (grant type enabled, code / refresh token present, endpoint
-   enabled) -- the error is invalid_client. *)
+   enabled) -- the error is invalid_client.  (The jwt-bearer grant, the one endpoint with an exception,
+   is the subject of jwt_bearer_anonymous_only_when_allowed below.) *)
 Theorem unauthenticated_inert : forall w n now st,
   (forall r, unauthenticated w st (t_cred r) -> refused_inert (code_grant w n now r) st (pre_code w r)) /\
   (forall r, unauthenticated w st (t_cred r) -> refused_inert (refresh_grant w n now r) st (pre_refresh w r)) /\
@@ -58,6 +60,47 @@ Theorem unauthenticated_inert : forall w n now st,
   (forall r, unauthenticated w st (q_cred r) -> refused_inert (revoke w now r) st (cf_revocation (w_cfg w))).
 Proof. exact unauthenticated_inert_l. Qed.
 Print Assumptions unauthenticated_inert.
+
+(* THE EXCEPTION: the jwt-bearer grant (Token.jwt_bearer_grant).  For every world, store, clock,
+   operation index and request:
+   - a request yields tokens without an authenticated client ONLY IF it carries no client identification
+     at all (no client_id, no basic user, no client_assertion: cr_id = 0) and the embedder did not set
+     WithJWTBearerGrantClientAuthnRequired; the grant is then issued to the anonymous client (empty id)
+     and carries no refresh token;
+   - a request that is not authenticated and names somebody (unknown client, known client with a bad
+     credential), or meets a server that requires client authentication for the grant, is refused as
+     on every other endpoint: an error - invalid_client once the grant type is enabled -, the store
+     unchanged, no storage call but reads of the client store. *)
+Theorem jwt_bearer_anonymous_only_when_allowed : forall w n now r st,
+  ((exists t, snd (run_seq (jwt_bearer_grant w n now r) st) = OTokens t) ->
+   snd (run_seq (Token.authenticated w (t_cred r)) st) = None ->
+   cr_id (t_cred r) = 0 /\ cf_jwt_bearer_authn_required (w_cfg w) = false /\
+   forall g, st_gsess (fst (run_seq (jwt_bearer_grant w n now r) st)) = put_gsess g (st_gsess st) ->
+             g_refresh g = 0 /\ g_client g = 0) /\
+  (unauthenticated w st (t_cred r) ->
+   cr_id (t_cred r) <> 0 \/ cf_jwt_bearer_authn_required (w_cfg w) = true ->
+   refused_inert (jwt_bearer_grant w n now r) st (has_grant GJwtBearer (cf_grants (w_cfg w)))).
+Proof.
+  intros w n now r st. split.
+  - intros [t T0] A. assert (T : Monitors.is_tokens (snd (run_seq (jwt_bearer_grant w n now r) st)) = true) by (rewrite T0; reflexivity).
+    destruct (jwt_bearer_anonymous_needs w n now r st T A) as [Z F]. split; [exact Z|]. split; [exact F|].
+    intros g S. exact (anonymous_no_refresh w n now r st g T A S).
+  - exact (inert_jwt_bearer w n now r st).
+Qed.
+Print Assumptions jwt_bearer_anonymous_only_when_allowed.
+
+(* the hypotheses are satisfiable: an anonymous request that yields tokens; a request naming a known
+   client with a wrong credential that is refused with invalid_client *)
+Example jwt_bearer_exception_nonvacuous :
+  (exists t, snd (run_seq (jwt_bearer_grant (ex_jb_world false) 0 0%Z (ex_jb_req (mkCred 0 false) "openid" (AsOk "bob"))) empty_store) = OTokens t) /\
+  snd (run_seq (Token.authenticated (ex_jb_world false) (mkCred 0 false)) empty_store) = None /\
+  unauthenticated (ex_jb_world false) empty_store (mkCred 1 false) /\
+  snd (run_seq (jwt_bearer_grant (ex_jb_world false) 0 0%Z (ex_jb_req (mkCred 1 false) "openid" (AsOk "bob"))) empty_store) = OErr EInvalidClient.
+Proof.
+  destruct ex_jb_post_antecedent as (A & B & C & D). split; [|auto].
+  destruct (snd (run_seq (jwt_bearer_grant (ex_jb_world false) 0 0%Z (ex_jb_req (mkCred 0 false) "openid" (AsOk "bob"))) empty_store)); try discriminate.
+  eexists; reflexivity.
+Qed.
 
 (* refused_inert in terms of the sequential interpreter the other properties use *)
 Theorem refused_inert_run_seq : forall p st pre,
@@ -72,6 +115,125 @@ Theorem authn_none_is_unauthenticated : forall g x cls rq w st,
   agrees x cls w st -> authenticated g x cls rq = None -> unauthenticated w st (cred_of g x cls rq).
 Proof. exact authn_none_unauthenticated. Qed.
 Print Assumptions authn_none_is_unauthenticated.
+
+(* ======== PLACEMENT: where each member of the credential travels (Model/AuthnWire.v) ========
+   A wire request `wreq` carries every form-carried member (client_id, client_secret, client_assertion,
+   client_assertion_type) with its value in the BODY and its value in the QUERY STRING of the request
+   URI; entry_outcome g e required cls w is what entry point e (one of the nine: /token for each of
+   the five grants, /par, /bc-authorize, /introspect, /revoke) makes of it: act for a client, act for
+   the anonymous client, or refuse - paired with whether the client's jwks_uri is fetched. *)
+
+(* the query string is ignored: two requests that differ in their query strings only get the same
+   outcome, at every entry point, for every configuration and registration *)
+Theorem query_string_ignored : forall g e required cls w w',
+  same_but_query w w' -> entry_outcome g e required cls w = entry_outcome g e required cls w'.
+Proof. exact query_string_ignored_l. Qed.
+Print Assumptions query_string_ignored.
+
+(* soundness and completeness over wire requests: the credential that counts is the one carried in
+   the places it must be in (body_view: form members from the body, the Basic pair from the header,
+   the certificate from the TLS layer) *)
+Theorem authn_wire_sound : forall g e required cls w c,
+  fst (entry_outcome g e required cls w) = OutClient c -> ca_id c <> 0 ->
+  registered cls c /\ valid_credential g (entry_ctx e) c (body_view w).
+Proof. exact authn_wire_sound_l. Qed.
+Print Assumptions authn_wire_sound.
+
+Theorem authn_wire_complete : forall g e required cls w c,
+  registered cls c -> valid_credential g (entry_ctx e) c (body_view w) -> unambiguous c (body_view w) ->
+  fst (entry_outcome g e required cls w) = OutClient c.
+Proof. exact authn_wire_complete_l. Qed.
+Print Assumptions authn_wire_complete.
+
+(* whenever an entry point acts for client c, the members of the credential of the method registered
+   for (c, entry point) sit where that method reads them: client_id + client_secret in the body
+   (client_secret_post), the Basic pair in the Authorization header (client_secret_basic), the
+   assertion and its type in the body (the two assertion methods), client_id in the body and a
+   certificate (the two TLS methods) *)
+Theorem credential_placement : forall g e required cls w c,
+  fst (entry_outcome g e required cls w) = OutClient c -> ca_id c <> 0 -> placement (entry_ctx e) c w.
+Proof. exact credential_placement_l. Qed.
+Print Assumptions credential_placement.
+
+(* a client_secret outside the body is ignored: without a (non-empty) client_secret in the body no
+   client whose method at this entry point is client_secret_post is authenticated - whatever the
+   query string (in_query (wq_secret w)) and the Authorization header carry *)
+Theorem secret_post_query_ignored : forall g e required cls w c,
+  authn_method c (entry_ctx e) = MSecretPost ->
+  (in_body (wq_secret w) = None \/ in_body (wq_secret w) = Some 0) ->
+  fst (entry_outcome g e required cls w) <> OutClient c.
+Proof. exact secret_post_query_ignored_l. Qed.
+Print Assumptions secret_post_query_ignored.
+
+(* ... and the request is refused when its body names a registered client_secret_post client *)
+Theorem misplaced_secret_refused : forall g e required cls w c,
+  registered cls c -> ca_id c <> 0 -> authn_method c (entry_ctx e) = MSecretPost ->
+  in_body (wq_id w) = Some (ca_id c) ->
+  (in_body (wq_secret w) = None \/ in_body (wq_secret w) = Some 0) ->
+  fst (entry_outcome g e required cls w) = OutRefused.
+Proof. exact misplaced_secret_refused_l. Qed.
+Print Assumptions misplaced_secret_refused.
+
+(* a secret in the form (body or query string) does not authenticate a client_secret_basic client *)
+Theorem secret_basic_needs_header : forall g e required cls w c,
+  authn_method c (entry_ctx e) = MSecretBasic -> wq_basic w = None ->
+  fst (entry_outcome g e required cls w) <> OutClient c.
+Proof. exact secret_basic_needs_header_l. Qed.
+Print Assumptions secret_basic_needs_header.
+
+(* an assertion (or its type) outside the body does not authenticate a private_key_jwt /
+   client_secret_jwt client *)
+Theorem assertion_query_ignored : forall g e required cls w c,
+  authn_method c (entry_ctx e) = MPrivateKeyJWT \/ authn_method c (entry_ctx e) = MSecretJWT ->
+  (in_body (wq_assertion w) = None \/ in_body (wq_assertion w) = Some ANone \/ in_body (wq_type w) <> Some true) ->
+  fst (entry_outcome g e required cls w) <> OutClient c.
+Proof. exact assertion_query_ignored_l. Qed.
+Print Assumptions assertion_query_ignored.
+
+(* ======== IDENTIFICATION: none / one id / conflict, and the one exception of the property ========
+   extract_id answers IdNotIdentified (clientutil.ErrClientNotIdentified), IdOk i, or IdInvalid. *)
+
+(* "not identified" means exactly: no client_id in the body, no Basic user, no client_assertion *)
+Theorem extract_id_unidentified : forall g w,
+  extract_id g (request_of w) = IdNotIdentified <-> names_nobody w.
+Proof. exact extract_id_unidentified_l. Qed.
+Print Assumptions extract_id_unidentified.
+
+(* two places of the request (Basic user / body client_id / assertion issuer) naming different
+   clients is the conflict answer, never the "not identified" one *)
+Theorem extract_id_conflict : forall g w p q i j,
+  names g w p i -> names g w q j -> i <> j -> extract_id g (request_of w) = IdInvalid.
+Proof. exact extract_id_conflict_l. Qed.
+Print Assumptions extract_id_conflict.
+
+(* THE EXCEPTION.  An entry point goes the anonymous way if and only if it is the jwt-bearer grant,
+   the embedder does not require client authentication for it, and the request carries no client
+   identification AT ALL *)
+Theorem anonymous_only_without_identification : forall g e required cls w,
+  fst (entry_outcome g e required cls w) = OutAnonymous <->
+  e = EpJwtBearer /\ required = false /\ names_nobody w.
+Proof. exact anonymous_iff_l. Qed.
+Print Assumptions anonymous_only_without_identification.
+
+(* conflicting identification is refused at every entry point - by the jwt-bearer grant too, whether
+   or not it requires client authentication - and the client's jwks_uri is not fetched *)
+Theorem id_conflict_refused : forall g e required cls w p q i j,
+  names g w p i -> names g w q j -> i <> j ->
+  entry_outcome g e required cls w = (OutRefused, false).
+Proof. exact id_conflict_refused_l. Qed.
+Print Assumptions id_conflict_refused.
+
+(* REFUSED MEANS INERT, at all nine entry points: when the outcome is OutRefused, the handler of the
+   entry point run on the abstract credential the wire request amounts to answers an error
+   (invalid_client once its own earlier guards pass), leaves the store as it was and makes no storage
+   call but client reads.  For the jwt-bearer grant the handler is the head of generateJWTBearerGrant
+   (Model/AuthnEntry.v) followed by an ARBITRARY rest k: a refused request never reaches it. *)
+Theorem refused_outcome_inert : forall g e required cls wq w n now st,
+  agrees (entry_ctx e) cls w st ->
+  fst (entry_outcome g e required cls wq) = OutRefused ->
+  refused_at g e required cls wq w n now st.
+Proof. exact refused_outcome_inert_l. Qed.
+Print Assumptions refused_outcome_inert.
 
 (* ---- the hypotheses are satisfiable (ex_cfg, ex_client, ex_request ... are defined in Proofs/C01Proofs.v) ---- *)
 Example authn_sound_nonvacuous :
@@ -93,3 +255,28 @@ Example unauthenticated_nonvacuous :
   unauthenticated w st (cred_of ex_cfg CtxToken [ex_client] rq).
 Proof. exact unauthenticated_nonvacuous_l. Qed.
 
+
+(* the reader matters: were client_secret read with Request.FormValue (body, then query string), a
+   secret travelling in the request URI only would authenticate; read as the code reads it, the same
+   request is refused *)
+Example form_value_reader_unsound :
+  authenticated ex_cfg CtxToken [ex_post_client]
+    (request_with (mkReaders SrcPostForm SrcForm SrcPostForm SrcPostForm) ex_query_secret) = Some ex_post_client /\
+  entry_outcome ex_cfg EpClientCredentials true [ex_post_client] ex_query_secret = (OutRefused, false).
+Proof. exact form_value_reader_unsound_l. Qed.
+
+Example id_conflict_nonvacuous :
+  names ex_cfg ex_two_ids PlHeader 1 /\ names ex_cfg ex_two_ids PlBody 2 /\
+  entry_outcome ex_cfg EpJwtBearer false [ex_post_client] ex_two_ids = (OutRefused, false).
+Proof. exact conflict_nonvacuous_l. Qed.
+
+(* client_id in the query string only names nobody: the anonymous path, when allowed *)
+Example anonymous_nonvacuous :
+  names_nobody ex_nobody /\ entry_outcome ex_cfg EpJwtBearer false [ex_post_client] ex_nobody = (OutAnonymous, false).
+Proof. exact anonymous_nonvacuous_l. Qed.
+
+Example placement_nonvacuous :
+  let w := mkWreq (mkPlaced (Some 1) None) (mkPlaced (Some 1001) (Some 7)) (mkPlaced None None) (mkPlaced None None)
+                  None None true None in
+  fst (entry_outcome ex_cfg EpRevoke true [ex_post_client] w) = OutClient ex_post_client /\ ca_id ex_post_client <> 0.
+Proof. exact placement_nonvacuous_l. Qed.
